@@ -110,7 +110,163 @@ pub fn run(cfg: &Cfg) -> i32 {
         one_history(cfg, &mut r, &s, &rt, &mut rng, idx);
     }
     s.reset();
+    // real-process cross-check: the hooked `rip serve` aborts itself at a named point (RIP_VERIF_ABORT) while it
+    // is driven over HTTP; the store it leaves is judged exactly like an image. This validates that a directory
+    // copy taken at a hook is what a real process death leaves.
+    if cfg.shard.0 == 0 || cfg.tier == crate::report::Tier::Thorough {
+        real_process_aborts(cfg, &mut r);
+    }
     r.finish(cfg)
+}
+
+const ABORT_POINTS: &[&str] = &[
+    "log.append.locked",
+    "log.append.after_body",
+    "log.append.after_flush",
+    "cont.cache.enter",
+    "cache.sidecar.written",
+    "cache.msgidx.written",
+    "cache.mr.written",
+    "cache.mrord.written",
+    "cache.comp.written",
+    "cont.cache.exit",
+    "index.tmp",
+    "artifact.tmp",
+    "artifact.renamed",
+    "snapshot.created",
+    "snapshot.written",
+];
+
+fn real_process_aborts(cfg: &Cfg, r: &mut Report) {
+    use crate::c18::{http_json, host_port, rip_bin, Proc};
+    let bin = rip_bin();
+    if !bin.exists() {
+        r.inconclusive(&format!("real binary {} not found: real-process abort cross-check skipped", bin.display()));
+        return;
+    }
+    let n_cases = cfg.tier.pick(8u64, 60u64);
+    let deadline = cfg.budget_s * cfg.tier.pick(1.6, 1.3);
+    for k in 0..n_cases {
+        if r.elapsed() > deadline {
+            break;
+        }
+        let mut rng = cfg.case_rng(900_000 + k * 97 + cfg.shard.0);
+        let point = ABORT_POINTS[((k + cfg.shard.0 * 5) as usize) % ABORT_POINTS.len()];
+        let nth = 1 + rng.below(match point {
+            "index.tmp" => 3,
+            "snapshot.created" | "snapshot.written" => 4,
+            "artifact.tmp" | "artifact.renamed" | "cache.comp.written" => 5,
+            _ => 30,
+        });
+        let store = Store::new("c05rp");
+        let mut cmd = std::process::Command::new(&bin);
+        cmd.arg("serve")
+            .env("RIP_SERVER_ADDR", "127.0.0.1:0")
+            .env("RIP_DATA_DIR", &store.data)
+            .env("RIP_WORKSPACE_ROOT", &store.ws)
+            .env("RIP_CONFIG_HOME", store.dir.join("cfg"))
+            .env("RIP_VERIF_ABORT", format!("{point}:{nth}"))
+            .env_remove("RIP_VERIF_DELAY")
+            .current_dir(&store.ws);
+        let Ok(mut proc_) = Proc::spawn(cmd) else {
+            r.inconclusive("cannot spawn rip serve");
+            continue;
+        };
+        let mut endpoint = None;
+        for _ in 0..400 {
+            if let Some(e) = proc_.listening() {
+                endpoint = Some(e);
+                break;
+            }
+            if !proc_.alive() {
+                break;
+            }
+            std::thread::sleep(Duration::from_millis(5));
+        }
+        let Some(endpoint) = endpoint else {
+            proc_.finish();
+            r.inconclusive("rip serve did not come up");
+            continue;
+        };
+        let addr = host_port(&endpoint);
+        let t = Duration::from_secs(5);
+        let mut acked: Vec<String> = Vec::new();
+        let mut conts: Vec<String> = Vec::new();
+        let mut msgs: Vec<String> = Vec::new();
+        if let Some((200, v, _)) = http_json(&addr, "POST", "/threads/ensure", None, t) {
+            if let Some(id) = v["thread_id"].as_str() {
+                conts.push(id.to_string());
+            }
+        }
+        let mut steps = 0;
+        while proc_.alive() && steps < 40 && !conts.is_empty() {
+            steps += 1;
+            let th = conts[0].clone();
+            match rng.below(6) {
+                0 | 1 | 2 => {
+                    let content = if rng.bool() {
+                        json!({"tool":"write","args":{"path": format!("f{steps}.txt"), "content": "x".repeat(1 + rng.usize(9000))}}).to_string()
+                    } else {
+                        format!("prompt {steps} {}", "y".repeat(rng.usize(9000)))
+                    };
+                    if let Some((202, v, _)) = http_json(&addr, "POST", &format!("/threads/{th}/messages"), Some(&json!({"content": content})), t) {
+                        if let Some(id) = v["message_id"].as_str() {
+                            acked.push(id.to_string());
+                            msgs.push(id.to_string());
+                        }
+                    }
+                }
+                3 => {
+                    if let Some(m) = msgs.last() {
+                        if let Some((201, v, _)) = http_json(&addr, "POST", &format!("/threads/{th}/compaction-checkpoint"), Some(&json!({"summary_markdown":"s","to_message_id": m})), t) {
+                            if let Some(id) = v["checkpoint_id"].as_str() {
+                                acked.push(id.to_string());
+                            }
+                        }
+                    }
+                }
+                4 => {
+                    let _ = http_json(&addr, "POST", &format!("/threads/{th}/compaction-auto"), Some(&json!({"stride_messages": 2, "max_new_checkpoints": 2})), t);
+                }
+                _ => {
+                    if let Some((201, v, _)) = http_json(&addr, "POST", &format!("/threads/{th}/branch"), Some(&json!({})), t) {
+                        if let Some(id) = v["thread_id"].as_str() {
+                            if conts.len() < 3 {
+                                conts.push(id.to_string());
+                            }
+                        }
+                    }
+                }
+            }
+            std::thread::sleep(Duration::from_millis(rng.below(25)));
+        }
+        // give in-flight runs a moment to reach the abort point, then make sure the process is gone
+        let aborted = proc_.wait_exit(Duration::from_millis(1500)).is_some();
+        let stderr = proc_.stderr_text();
+        proc_.finish();
+        let self_abort = stderr.contains("rip-verif: abort at");
+        r.count("real_process_cases", 1);
+        if self_abort {
+            r.count("real_process_self_aborts_at_point", 1);
+            r.count(&format!("aborted_at:{point}"), 1);
+        } else if aborted {
+            r.count("real_process_exited_otherwise", 1);
+        } else {
+            r.count("real_process_killed_at_arbitrary_instant", 1);
+        }
+        let img = Image {
+            dir: store.dir.clone(),
+            point: if self_abort { point } else { "kill_at_arbitrary_instant" },
+            op_index: steps,
+            op_kind: "HttpDriven".into(),
+            acked: acked.len(),
+            conts: conts.clone(),
+        };
+        // the authority lock of the dead process would block nothing in-process (App::open takes no lock)
+        judge_image(r, &img, &acked, 900_000 + k);
+        r.eval();
+        r.distinct_str(&format!("real_process@{}", img.point));
+    }
 }
 
 fn one_history(cfg: &Cfg, r: &mut Report, s: &Arc<crate::sched::Sched>, rt: &tokio::runtime::Runtime, rng: &mut Rng, idx: u64) {
